@@ -16,6 +16,7 @@ import (
 	"path/filepath"
 	"runtime"
 	"sync"
+	"sync/atomic"
 	"testing"
 	"time"
 
@@ -30,15 +31,23 @@ type vfC40Op struct {
 }
 
 type vfC40Case struct {
-	Rounds     int          `json:"rounds"`
-	Workers    [][]vfC40Op  `json:"workers"`
-	CloseBy    int          `json:"close_by"` // worker index that closes pcA at the end of its list (-1: harness closes after all)
-	Graceful   bool         `json:"graceful"`
-	GoMaxProcs int          `json:"gomaxprocs"`
-	PreMedia   int          `json:"pre_media"` // tracks added before the first round
+	Rounds     int         `json:"rounds"`
+	Workers    [][]vfC40Op `json:"workers"`
+	CloseBy    int         `json:"close_by"` // worker index that closes pcA at the end of its list (-1: harness closes after all)
+	Graceful   bool        `json:"graceful"`
+	GoMaxProcs int         `json:"gomaxprocs"`
+	PreMedia   int         `json:"pre_media"` // tracks added before the first round
+	// Starts[w] is the moment worker w begins: 0 at once, 1 when pcA first has a local offer,
+	// 2 when the first exchange reached stable (senders bound, transports still connecting),
+	// 3 when the connection is up.  Missing entries mean 0.
+	Starts []int `json:"starts,omitempty"`
+	// Writers: one continuously writing goroutine per entry (value picks the track), from the moment
+	// WriterStart (same scale as Starts) until every worker has finished.
+	Writers     []int `json:"writers,omitempty"`
+	WriterStart int   `json:"writer_start,omitempty"`
 }
 
-const vfC40Kinds = 14
+const vfC40Kinds = 18
 
 type vfC40State struct {
 	mu      sync.Mutex
@@ -180,6 +189,32 @@ func vfC40Do(pc *PeerConnection, st *vfC40State, op vfC40Op, tag string) {
 				_ = snd.ReplaceTrack(tr)
 			}
 		}
+	case 14:
+		// a burst of writes: before SRTP is ready every write goes through the sender's
+		// write-stream future again
+		if tr := st.pickTrack(op.Arg); tr != nil {
+			for i := 0; i < 20+20*op.Arg; i++ {
+				_ = tr.WriteSample(media.Sample{Data: []byte{0x10, 1, 2, 3, 4, 5, 6, 7}, Duration: 20 * time.Millisecond})
+				if i%4 == 3 {
+					runtime.Gosched()
+				}
+			}
+		}
+	case 15:
+		if snd := st.pickSender(op.Arg); snd != nil {
+			_ = snd.Stop()
+		}
+	case 16:
+		if trs := pc.GetTransceivers(); len(trs) > 0 {
+			_ = trs[op.Arg%len(trs)].Stop()
+		}
+	case 17:
+		if snd := st.pickSender(op.Arg); snd != nil {
+			_ = snd.GetParameters()
+			_ = snd.Track()
+			_ = snd.Transport()
+			_ = snd.ReplaceTrack(nil)
+		}
 	case 13:
 		_ = pc.GetConfiguration()
 		if dc := st.pickDC(op.Arg); dc != nil && op.Arg%3 == 0 {
@@ -214,8 +249,30 @@ func vfC40Run(v *vfT, c vfC40Case) {
 	pcB.OnDataChannel(func(d *DataChannel) { d.OnMessage(func(DataChannelMessage) {}) })
 	pcB.OnTrack(func(*TrackRemote, *RTPReceiver) {})
 	pcA.OnNegotiationNeeded(func() {})
-	pcA.OnConnectionStateChange(func(PeerConnectionState) {})
-	pcA.OnSignalingStateChange(func(SignalingState) {})
+	phase := [4]chan struct{}{make(chan struct{}), make(chan struct{}), make(chan struct{}), make(chan struct{})}
+	var phaseOnce [4]sync.Once
+	reach := func(p int) {
+		for i := 0; i <= p; i++ {
+			i := i
+			phaseOnce[i].Do(func() { close(phase[i]) })
+		}
+	}
+	reach(0)
+	var sawOffer atomic.Bool
+	pcA.OnConnectionStateChange(func(cs PeerConnectionState) {
+		if cs == PeerConnectionStateConnected || cs == PeerConnectionStateClosed || cs == PeerConnectionStateFailed {
+			reach(3)
+		}
+	})
+	pcA.OnSignalingStateChange(func(ss SignalingState) {
+		switch {
+		case ss == SignalingStateHaveLocalOffer:
+			sawOffer.Store(true)
+			reach(1)
+		case ss == SignalingStateStable && sawOffer.Load():
+			reach(2)
+		}
+	})
 	pcA.OnICECandidate(func(*ICECandidate) {})
 	st := &vfC40State{}
 	for i := 0; i < c.PreMedia; i++ {
@@ -234,7 +291,15 @@ func vfC40Run(v *vfT, c vfC40Case) {
 	})
 	for w, ops := range c.Workers {
 		w, ops := w, ops
+		start := 0
+		if w < len(c.Starts) {
+			start = c.Starts[w] & 3
+		}
 		actors.Go(fmt.Sprintf("worker%d", w), func() {
+			select {
+			case <-phase[start]:
+			case <-time.After(1500 * time.Millisecond): // the exchange failed or never connected: run anyway
+			}
 			for i, op := range ops {
 				vfC40Do(pcA, st, op, fmt.Sprintf("%d.%d", w, i))
 			}
@@ -247,7 +312,30 @@ func vfC40Run(v *vfT, c vfC40Case) {
 			}
 		})
 	}
+	var stopWriters atomic.Bool
+	writers := vfNewActors()
+	for i, pick := range c.Writers {
+		i, pick := i, pick
+		writers.Go(fmt.Sprintf("writer%d", i), func() {
+			select {
+			case <-phase[c.WriterStart&3]:
+			case <-time.After(1500 * time.Millisecond):
+			}
+			for n := 0; !stopWriters.Load(); n++ {
+				if tr := st.pickTrack(pick); tr != nil {
+					_ = tr.WriteSample(media.Sample{Data: []byte{0x10, 1, 2, 3, 4, 5, 6, 7}, Duration: 20 * time.Millisecond})
+				}
+				if n%8 == 7 {
+					time.Sleep(20 * time.Microsecond)
+				}
+			}
+		})
+	}
 	ok, dump := vfWaitActors(actors, 90*time.Second)
+	stopWriters.Store(true)
+	if okw, dumpw := vfWaitActors(writers, 30*time.Second); !okw {
+		v.Violation("C40/deadlock", "a write on a local track did not return within 30s after every other call had returned (or hung with them): %s; other actors: %s", dumpw, dump)
+	}
 	closed := vfNewActors()
 	closed.Go("closeA", func() { _ = pcA.Close() })
 	closed.Go("closeB", func() { _ = pcB.Close() })
@@ -258,21 +346,31 @@ func vfC40Run(v *vfT, c vfC40Case) {
 	if !ok2 {
 		v.Violation("C40/deadlock", "Close did not return within 60s after the concurrent phase: %s", dump2)
 	}
-	if len(c.Workers) >= 2 {
+	if len(c.Workers)+len(c.Writers) >= 2 {
 		v.NonTrivial()
 	}
 	if c.CloseBy >= 0 && c.CloseBy < len(c.Workers) {
 		v.Label("closed-by-worker")
 	}
 	v.Label(fmt.Sprintf("rounds=%d", c.Rounds))
+	if len(c.Writers) > 0 {
+		v.Label(fmt.Sprintf("continuous-writers-from-phase-%d", c.WriterStart&3))
+	}
+	for w := range c.Workers {
+		if w < len(c.Starts) && c.Starts[w]&3 != 0 {
+			v.Label(fmt.Sprintf("worker-starts-at-phase-%d", c.Starts[w]&3))
+		}
+	}
+}
+
+var vfC40Opts = vfOpts{
+	Rule: "randomized concurrent programs under the race detector: one negotiator goroutine (1-3 offer/answer rounds with a live peer) plus 2-8 workers running drawn sequences of 18 kinds of public API calls (AddTrack, RemoveTrack, AddTransceiver*, CreateDataChannel, getters, GetStats, WriteSample singly and in bursts, Send, ReplaceTrack, sender/transceiver Stop, ...), each worker starting at a drawn moment of the first exchange (at once / local offer set / exchange complete but transports connecting / connected), a drawn worker closing the connection; a second family adds 1-4 goroutines writing continuously on the local tracks against workers dominated by RemoveTrack / ReplaceTrack / Stop / Close; GOMAXPROCS in {2,4,16}; non-trivial = at least two concurrent goroutines besides the negotiator",
+	Assumptions: []string{"schedules are sampled (Gosched perturbation, GOMAXPROCS), not enumerated: a race that needs a specific pre-emption is found only if the detector observes both accesses unsynchronised in some run",
+		"a data race report ends the process (GORACE=halt_on_error=1); the case in flight is the replay together with the report"},
 }
 
 func TestVerif_C40(t *testing.T) {
-	vfProperty(t, "C40", vfOpts{
-		Rule: "randomized concurrent programs under the race detector: one negotiator goroutine (1-3 offer/answer rounds with a live peer) plus 2-8 workers running drawn sequences of 14 kinds of public API calls (AddTrack, RemoveTrack, AddTransceiver*, CreateDataChannel, getters, GetStats, WriteSample, Send, ReplaceTrack, ...), a drawn worker closing the connection; GOMAXPROCS in {2,4,16}; non-trivial = at least two workers",
-		Assumptions: []string{"schedules are sampled (Gosched perturbation, GOMAXPROCS), not enumerated: a race that needs a specific pre-emption is found only if the detector observes both accesses unsynchronised in some run",
-			"a data race report ends the process (GORACE=halt_on_error=1); the case in flight is the replay together with the report"},
-	}, func(v *vfT) vfC40Case {
+	vfProperty(t, "C40", vfC40Opts, func(v *vfT) vfC40Case {
 		c := vfC40Case{
 			Rounds:     rapid.IntRange(1, 3).Draw(v.R, "rounds"),
 			GoMaxProcs: rapid.SampledFrom([]int{2, 4, 16}).Draw(v.R, "gomaxprocs"),
@@ -287,6 +385,36 @@ func TestVerif_C40(t *testing.T) {
 				ops = append(ops, vfC40Op{Kind: rapid.IntRange(0, vfC40Kinds-1).Draw(v.R, "kind"), Arg: rapid.IntRange(0, 7).Draw(v.R, "arg"), Yields: rapid.SampledFrom([]int{0, 0, 1, 5, 30}).Draw(v.R, "yields")})
 			}
 			c.Workers = append(c.Workers, ops)
+			c.Starts = append(c.Starts, rapid.SampledFrom([]int{0, 0, 1, 2, 2, 3}).Draw(v.R, "start"))
+		}
+		c.CloseBy = rapid.IntRange(-1, nw-1).Draw(v.R, "closeby")
+		return c
+	}, vfC40Run)
+}
+
+// TestVerif_C40_Writers: the same programs focused on media writes against sender teardown:
+// 1-4 goroutines write continuously on the local tracks from a drawn moment of the first
+// exchange while 1-3 workers run short drawn sequences dominated by RemoveTrack, ReplaceTrack,
+// sender / transceiver Stop, AddTrack and Close.
+func TestVerif_C40_Writers(t *testing.T) {
+	vfProperty(t, "C40", vfC40Opts, func(v *vfT) vfC40Case {
+		c := vfC40Case{
+			Rounds:      rapid.IntRange(1, 2).Draw(v.R, "rounds"),
+			GoMaxProcs:  rapid.SampledFrom([]int{2, 4, 16}).Draw(v.R, "gomaxprocs"),
+			PreMedia:    rapid.IntRange(1, 2).Draw(v.R, "premedia"),
+			Graceful:    rapid.Bool().Draw(v.R, "graceful"),
+			WriterStart: rapid.SampledFrom([]int{0, 1, 2, 2, 3}).Draw(v.R, "writerstart"),
+		}
+		c.Writers = rapid.SliceOfN(rapid.IntRange(0, 3), 1, 4).Draw(v.R, "writers")
+		nw := rapid.IntRange(1, 3).Draw(v.R, "workers")
+		for w := 0; w < nw; w++ {
+			n := rapid.IntRange(1, 4).Draw(v.R, "nops")
+			var ops []vfC40Op
+			for i := 0; i < n; i++ {
+				ops = append(ops, vfC40Op{Kind: rapid.SampledFrom([]int{1, 1, 12, 12, 15, 16, 17, 17, 0, 3, 6, 8}).Draw(v.R, "kind"), Arg: rapid.IntRange(0, 7).Draw(v.R, "arg"), Yields: rapid.SampledFrom([]int{0, 1, 30, 300}).Draw(v.R, "yields")})
+			}
+			c.Workers = append(c.Workers, ops)
+			c.Starts = append(c.Starts, rapid.SampledFrom([]int{1, 2, 2, 2, 3}).Draw(v.R, "start"))
 		}
 		c.CloseBy = rapid.IntRange(-1, nw-1).Draw(v.R, "closeby")
 		return c
